@@ -60,7 +60,7 @@ let emit op st recs = obs "%s %s" op (status_str st); List.iter print_record rec
    fails; "full" (/dev/full) opens but every flush fails: a report that fits the 4096-byte buffer
    fails only at the final flush (after the command did its work), a long report fails while it
    is printed, i.e. before the final Sync of a writing command. *)
-type textout = ToFile | ToBad | ToFull | ToDiscard
+(* textout, textout_status, textout_runs: extracted from Model/Cmd.v *)
 let textout kv = match get kv "textout" "file" with "bad" -> ToBad | "full" -> ToFull | "discard" -> ToDiscard | _ -> ToFile
 let nrecords recs = List.fold_left (fun n r -> n + (match r with RHeader (_, _, _, l) -> 1 + List.length l | _ -> 1)) 0 recs
 
@@ -101,14 +101,12 @@ let run_copy_like op kv jobs (run : 'a -> z -> cmd_result) (dest_name : 'a -> st
           | st -> (st, List.rev acc)
         end in
     let (st, recs) = go 0 jobs [] in
-    let st = if to_ = ToFull && st = StOk then StErr else st in
+    let st = textout_status to_ st in
     (match to_ with ToFile -> emit op st recs | _ -> obs "%s %s" op (status_str st))
 
 let emit_readonly op kv st recs =
   match textout kv with
-  | ToBad -> obs "%s err" op
-  | ToFull -> obs "%s %s" op (status_str (if st = StOk then StErr else st))   (* the flush error replaces success only *)
-  | ToDiscard -> obs "%s %s" op (status_str st)
+  | ToBad | ToFull | ToDiscard -> obs "%s %s" op (status_str (textout_status (textout kv) st))
   | ToFile -> emit op st recs
 
 (* items=item|f1,f2;item2|f3 *)
@@ -290,7 +288,7 @@ let () =
         | Some h -> set_file (get kv "dest" "")
                       (if long then create (getz kv "m" 2) (z_of_hex (get kv "x" "3f000000")) layout else Some h)
         | None -> ());
-       obs "cligenerate %s" (status_str (if st = StOk && textout kv = ToFull then StErr else st))
+       obs "cligenerate %s" (status_str (textout_status (textout kv) st))
      | ToFile ->
        (match f with Some h -> set_file (get kv "dest" "") (Some h) | None -> ());
        (match st, f with
